@@ -192,10 +192,8 @@ func Write(o *Opts, rule string, sets []*Set, extra map[string]interface{}, fail
 	meta := Meta{Seed: o.Seed, Tier: o.Tier, Rule: rule, Buckets: map[string]int{}, Extra: extra, ImplFailures: fails}
 	seen := map[string]bool{}
 	for _, s := range sets {
+		// fixed shard size: bounded memory per coqc whatever the volume (shards queue through bin/check's pool)
 		perShard := 250
-		if len(s.Cases) > 16*perShard {
-			perShard = (len(s.Cases) + 15) / 16
-		}
 		all := make([]interface{}, 0, len(s.Cases))
 		for i, c := range s.Cases {
 			meta.Evaluations++
